@@ -57,6 +57,9 @@ type Prop[C any] struct {
 	// MinFrac: minimal fraction of generated cases that must carry a label,
 	// otherwise the run is reported inconclusive (exit 2), not green.
 	MinFrac map[string]float64
+	// MaxKnownFrac: if the listed known findings explain more than this fraction
+	// of the generated cases the run is reported inconclusive (default 0.5).
+	MaxKnownFrac float64
 	// PanicOK: a panic inside Check is reported with Kind "panic" unless the
 	// check itself handles it.
 }
@@ -463,6 +466,17 @@ func Run[C any](t *testing.T, p Prop[C]) {
 		stats.Violations = append(stats.Violations, violation{Prop: p.Name, Kind: lastFail.Kind, Msg: lastFail.Msg, Replay: path, Case: sampleOf(lastCase)})
 		mu.Unlock()
 	} else if ps.Evaluations >= 200 {
+		ex := 0
+		for _, n := range ps.Excluded {
+			ex += n
+		}
+		maxFrac := p.MaxKnownFrac
+		if maxFrac == 0 {
+			maxFrac = 0.5
+		}
+		if float64(ex) > maxFrac*float64(ps.Evaluations) {
+			ps.Starved = append(ps.Starved, fmt.Sprintf("known-finding predicates explain %d of %d cases (> %.2f): too little is asserted", ex, ps.Evaluations, maxFrac))
+		}
 		for l, frac := range p.MinFrac {
 			if float64(ps.Classes[l]) < frac*float64(ps.Evaluations) {
 				ps.Starved = append(ps.Starved, fmt.Sprintf("%s: %d of %d (< %.3f)", l, ps.Classes[l], ps.Evaluations, frac))
